@@ -2992,3 +2992,19 @@ V(id='c43-nthroot-newton-unguarded', prop='C43', file='mpmath/math2.py',
   old="def nthroot(x, n):\n    r = 1./n\n    try:\n        return float(x) ** r\n",
   new="def nthroot(x, n):\n    r = 1./n\n    try:\n        y = float(x) ** r\n        if y:\n            y -= (y**n - x)/(n*y**(n-1))\n        return y\n",
   expect='fire:F-R17:nthroot')
+
+# ---- C40 P-R7 (third hunt; fixes 769f5ee, cc67087) ----
+V(id='c40-matrix-no-context-rebuild', prop='C40', file='mpmath/matrices/matrices.py',
+  old="    def __reduce_ex__(self, protocol):\n", new="    def _unused_reduce_ex(self, protocol):\n", expect='fire:P-R7:_matrix')
+V(id='c40-matrix-reduce-always-default', prop='C40', file='mpmath/matrices/matrices.py',
+  old="                    return (_matrix_of_context, (name,), self.__dict__)\n", new="                    break\n", expect='fire:P-R7:_matrix')
+V(id='c40-ivmpf-no-reduce', prop='C40', file='mpmath/ctx_iv.py',
+  old="    def __reduce__(self):\n        return _iv_reduce(self, 'mpf', self._mpi_)\n\n", new="", expect='fire:P-R7:ivmpf')
+V(id='c40-ivmpc-no-reduce', prop='C40', file='mpmath/ctx_iv.py',
+  old="    def __reduce__(self):\n        return _iv_reduce(self, 'mpc', self._mpci_)\n\n", new="", expect='fire:P-R7:ivmpc')
+V(id='c40-iv-constant-default-copy', prop='C40', file='mpmath/ctx_iv.py',
+  old="    def __copy__(self):\n        return self\n    def __deepcopy__(self, memo):\n        return self\n    def __reduce__(self):\n        import mpmath\n",
+  new="    def __reduce__(self):\n        import mpmath\n", expect='fire:P-R7:ivmpf_constant')
+V(id='c40-benign-iv-reduce-inline', prop='C40', file='mpmath/ctx_iv.py',
+  old="    def __reduce__(self):\n        return _iv_reduce(self, 'mpf', self._mpi_)\n",
+  new="    def __reduce__(self):\n        return (_iv_number, ('mpf', self._mpi_))\n", expect='silent')
